@@ -80,7 +80,7 @@ def run(tier, seed):
         names = rng.choice(list(g.values()))
         a, b = rng.choice(names), rng.choice(names)
         c, d = rng.choice(allnames), rng.choice(allnames)
-        form = rng.randint(0, 7)
+        form = rng.randint(0, 11)
         if form == 0:
             texts.append("%s%s %s -> %s %s" % (coeff(rng), a, c, b, c))
         elif form == 1:
@@ -95,8 +95,16 @@ def run(tier, seed):
             texts.append("%s%s -> x = 7 %s" % (coeff(rng), a, b))
         elif form == 6:
             texts.append("%s%s %s / %s -> %s %s / %s" % (coeff(rng), a, c, d, b, c, d))
-        else:
+        elif form == 7:
             texts.append("%s%s^-1 -> 1 / %s" % (coeff(rng), a, b))
+        elif form == 8:       # zeroth powers are dimensionless on either side
+            texts.append("(%s%s)^0 -> 1" % (coeff(rng), a))
+        elif form == 9:
+            texts.append("%s%s %s^0 -> %s" % (coeff(rng), a, c, b))
+        elif form == 10:
+            texts.append("%s%s -> %s %s^0" % (coeff(rng), a, b, c))
+        else:
+            texts.append("%s%s^3 / %s^2 -> %s (%s^2)^0" % (coeff(rng), a, b, b, c))
     shards = 16 if thorough else 8
     res, events, verdicts = evalkit.decide(run, texts, "pairs", env=env, shards=shards)
     run.sample({"leg": "pairs", "q": texts[0]})
